@@ -182,6 +182,19 @@ def _check(pid: str, tier: str, seed: int, t0: float) -> int:
                 note)
         o.detail = o.detail or note
         obligations.append(o)
+    # ---- ground obligations (finite tables compared exactly) ------------------
+    if cfg.get("ground") == "catalogue":
+        from pyvc.catalog import catalogue_obligations
+        for gid, ok, detail in catalogue_obligations(pkg):
+            o = Obligation(f"ground/{gid}", "quantity.predefined:<module>",
+                           "ground", True, [pid])
+            o.n_vcs = 1
+            o.solver = "exact-rational"
+            o.detail = detail
+            if not ok:
+                o.status = "refuted"
+                o.model = {"observed": detail}
+            obligations.append(o)
     # ---- frame scan ----------------------------------------------------------
     from pyvc.framecheck import frame_obligations
     obligations += frame_obligations(pkg, cfg.get("frame", []))
